@@ -811,5 +811,6 @@ func (s *resourceScope) IsUnused() bool {
 		st.NumStreamsOutbound == 0 &&
 		st.NumConnsInbound == 0 &&
 		st.NumConnsOutbound == 0 &&
-		st.NumFD == 0
+		st.NumFD == 0 &&
+		st.Memory == 0
 }
